@@ -44,6 +44,22 @@ CLAIMED["C01"] = dict(
     technique="Coq proof (induction over arrival lists, invariants) + model/implementation correspondence",
 )
 
+CLAIMED["C13"] = dict(
+    text="Coq theorems over Model/Chan.v (data-channel layer) for ALL input lists incl. every interleaving of "
+         "deferred flush/reconfig tasks: DCEP OPEN round trip for every label/protocol/reliability setting; "
+         "readyState rank never decreases; at most one open and one close event per channel, emitted exactly at "
+         "the crossing steps. PARTIAL: bufferedAmount accounting, id parity/freshness and 'association end closes "
+         "all' are not yet theorems (checked by correspondence + oracle); the two-endpoint close protocol is "
+         "observed only and is refuted by known findings K4 (RE-CONFIG never retransmitted), K9 (reset request "
+         "processed before the DATA it follows), K10 (id reused before both directions are reset).",
+    design_ref="5 / C13",
+    note="Congestion state (is _outbound_queue empty after a _send) and UTF-8 validity are oracle inputs of the "
+         "model; theorems hold for all their values. Tie: differential run against a real RTCSctpTransport with "
+         "_send/_send_reconfig_param/ensure_future recorded; two real endpoints running create/send/close programs "
+         "under fault schedules as oracle.",
+    technique="Coq proof (composable step invariant over all input lists) + model/implementation correspondence",
+)
+
 NOT_YET = "check not built yet in this development snapshot (planned, see DESIGN.md section 10)"
 
 
